@@ -31,6 +31,8 @@ impl Config {
     /// Write the given metadata.
     pub fn write_meta(&self) -> Result<()> {
         let f = fs::File::create(&self.meta_path)?;
+        #[cfg(feature = "verif")]
+        crate::verif::store_step("meta_truncated");
         serde_json::to_writer(f, &self.meta)?;
         Ok(())
     }
